@@ -857,7 +857,9 @@ def map_lookup(E, m, kt, keyval=None):
         val = E.materialize(m.vty, '%s[%d]' % (m.base, n))
         hook = E.ctx.env.get('map_value_hook')
         if hook is not None:
-            hook(E, m, kt, val)
+            r = hook(E, m, kt, val)
+            if r is not None:
+                val = r
     b.entries.append([kt, pres, val, keyval])
     return pres, val
 
@@ -931,7 +933,7 @@ def hamt_value_type(c):
     gens = c.callee.generics
     ids = c.callee.idents
     for i, name in enumerate(ids):
-        if name in ('Hamt', 'Kamt') and gens[i]:
+        if name in ('Hamt', 'Kamt', 'HamtImpl', 'KamtImpl') and gens[i]:
             return gens[i][1] if len(gens[i]) > 1 else None
         if name in ('AmtImpl', 'Amt') and gens[i]:
             return gens[i][0]
@@ -939,7 +941,7 @@ def hamt_value_type(c):
     if q:
         a = type_args(q)
         h = type_head(q)
-        if h in ('Hamt', 'Kamt') and len(a) > 1:
+        if h in ('Hamt', 'Kamt', 'HamtImpl', 'KamtImpl') and len(a) > 1:
             return a[1]
         if h in ('AmtImpl', 'Amt') and a:
             return a[0]
@@ -947,18 +949,18 @@ def hamt_value_type(c):
 
 
 # --- HAMT
-@model('Hamt::new', 'Hamt::new_with_bit_width', 'Hamt::new_with_config', 'Kamt::new_with_config', 'Kamt::new')
+@model('Hamt::new', 'Hamt::new_with_bit_width', 'Hamt::new_with_config', 'Kamt::new_with_config', 'Kamt::new', 'HamtImpl::new', 'HamtImpl::new_with_bit_width', 'HamtImpl::new_with_config')
 def _(E, c):
     return MapM(None, (), hamt_value_type(c), 'hamt')
 
 
-@model('Hamt::load', 'Hamt::load_with_bit_width', 'Hamt::load_with_config', 'Kamt::load_with_config', 'Kamt::load')
+@model('Hamt::load', 'Hamt::load_with_bit_width', 'Hamt::load_with_config', 'Kamt::load_with_config', 'Kamt::load', 'HamtImpl::load', 'HamtImpl::load_with_bit_width', 'HamtImpl::load_with_config')
 def _(E, c):
     cid = cid_of(E, c.args[0])
     return ok(load_map(E, cid, hamt_value_type(c), 'hamt'), c.dest_ty)
 
 
-@model('Hamt::get', 'Kamt::get')
+@model('Hamt::get', 'Kamt::get', 'HamtImpl::get')
 def _(E, c):
     m = map_of(E, c.args[0])
     pres, val = map_lookup(E, m, key_term(E, c.args[1]), E.deref(c.args[1]))
@@ -967,14 +969,14 @@ def _(E, c):
     return ok(none(), c.dest_ty)
 
 
-@model('Hamt::contains_key', 'Kamt::contains_key')
+@model('Hamt::contains_key', 'Kamt::contains_key', 'HamtImpl::contains_key')
 def _(E, c):
     m = map_of(E, c.args[0])
     pres, val = map_lookup(E, m, key_term(E, c.args[1]), E.deref(c.args[1]))
     return ok(pres, c.dest_ty)
 
 
-@model('Hamt::set', 'Kamt::set')
+@model('Hamt::set', 'Kamt::set', 'HamtImpl::set')
 def _(E, c):
     m = map_of(E, c.args[0])
     kv = E.deref(c.args[1])
@@ -984,7 +986,7 @@ def _(E, c):
     return ok(some(old) if pres else none(), c.dest_ty)
 
 
-@model('Hamt::set_if_absent', 'Kamt::set_if_absent')
+@model('Hamt::set_if_absent', 'Kamt::set_if_absent', 'HamtImpl::set_if_absent')
 def _(E, c):
     m = map_of(E, c.args[0])
     kv = E.deref(c.args[1])
@@ -996,7 +998,7 @@ def _(E, c):
     return ok(True, c.dest_ty)
 
 
-@model('Hamt::delete', 'Kamt::delete')
+@model('Hamt::delete', 'Kamt::delete', 'HamtImpl::delete')
 def _(E, c):
     m = map_of(E, c.args[0])
     kv = E.deref(c.args[1])
@@ -1008,24 +1010,24 @@ def _(E, c):
     return ok(some(StructV('tuple', {0: kv, 1: old})), c.dest_ty)
 
 
-@model('Hamt::flush', 'Kamt::flush', 'AmtImpl::flush', 'Amt::flush')
+@model('Hamt::flush', 'Kamt::flush', 'AmtImpl::flush', 'Amt::flush', 'HamtImpl::flush')
 def _(E, c):
     m = map_of(E, c.args[0])
     return ok(new_cid(E, m, 'root'), c.dest_ty)
 
 
-@model('Hamt::is_empty', 'Kamt::is_empty')
+@model('Hamt::is_empty', 'Kamt::is_empty', 'HamtImpl::is_empty')
 def _(E, c):
     m = map_of(E, c.args[0])
     return len(map_entries(E, m)) == 0
 
 
-@model('Hamt::store', 'Kamt::store', 'Hamt::into_store', 'Kamt::into_store')
+@model('Hamt::store', 'Kamt::store', 'Hamt::into_store', 'Kamt::into_store', 'HamtImpl::store', 'HamtImpl::into_store')
 def _(E, c):
     return OpaqueV('store')
 
 
-@model('Hamt::for_each', 'Kamt::for_each', 'Hamt::for_each_cacheless')
+@model('Hamt::for_each', 'Kamt::for_each', 'Hamt::for_each_cacheless', 'HamtImpl::for_each', 'HamtImpl::for_each_cacheless')
 def _(E, c):
     m = map_of(E, c.args[0])
     for (kt, val, kv) in map_entries(E, m):
@@ -1737,3 +1739,61 @@ VALUE_TYPES[CidV] = 'Cid'
 VALUE_TYPES[BlockV] = 'IpldBlock'
 VALUE_TYPES[SymBytes] = 'Vec<u8>'
 VALUE_TYPES[MapM] = 'Map'
+
+
+def _from_rawbytes_option(E, v, src, dst):
+    if src is None or type_head(src) != 'RawBytes':
+        return None
+    b = block_of(E, v)
+    if b.obj is UNIT:
+        return none(dst)
+    if b.obj is not None:
+        return some(b, dst)
+    n = z3.Int((b.name or 'blk') + '#len')
+    key = ('range', (b.name or 'blk') + '#len')
+    if key not in E.ctx.memo:
+        E.ctx.memo[key] = True
+        E.ctx.assume(z3.And(n >= 0, n < 2**32))
+    if E.ctx.branch(n == 0):
+        return none(dst)
+    return some(b, dst)
+
+
+FROM_MODELS['Option'] = _from_rawbytes_option
+
+
+# Map2 keys: MapKey::to_bytes / from_bytes are inverse encodings; the byte string carries the key value itself
+@model('re:^<.* as MapKey>::to_bytes$')
+def _(E, c):
+    return ok(OpaqueV('bytes', E.deref(c.args[0])), c.dest_ty)
+
+
+@model('re:^<.* as MapKey>::from_bytes$')
+def _(E, c):
+    v = E.deref(c.args[0])
+    if isinstance(v, StructV) and len(v.fields) == 1:
+        v = E.deref(v.fields[0])
+    if isinstance(v, OpaqueV) and v.kind == 'bytes' and v.payload is not None:
+        return ok(v.payload, c.dest_ty)
+    raise Inconclusive('MapKey::from_bytes of %r' % (v,))
+
+
+def _map_iter(E, m):
+    out = []
+    ents = map_entries(E, m)
+    if m.kind == 'amt':
+        ents = sort_by_int_key(E, ents)
+    for (kt, val, kv) in ents:
+        if kv is None:
+            raise Inconclusive('iteration over a map entry without a key value')
+        k = kv if m.kind == 'amt' else RefV(Cell(OpaqueV('bytes', kv), 'k'), ())
+        out.append(ok(StructV('tuple', {0: k, 1: RefV(Cell(val, 'v'), ())})))
+    return ListIter(out)
+
+
+AS_ITER[MapM] = _map_iter
+
+
+@model('Hamt::iter', 'HamtImpl::iter', 'Kamt::iter', 'AmtImpl::iter', 'Amt::iter')
+def _(E, c):
+    return iter_obj(_map_iter(E, map_of(E, c.args[0])))
